@@ -454,4 +454,72 @@ theorem seq_default_penalty_exact (I : SeqInst) (d : MPData) (h : I.data = some 
       ↔ (d.feasibleB x = true ∧ ∀ z, IsBin d.n z → d.feasibleB z = true → d.objective x ≤ d.objective z) :=
   default_penalty_exact d (seq_integral I d h) I.suffPenalty (seq_suff_ge_coeffs I d h hg) hex x hx
 
+/-! ## non-vacuity -/
+
+/-! arc-based: `C03.nv_I` (reachable graph `C15.nv_g`, grid `[0, 2, 6, 8]`, 9 variables) -/
+
+/-- hypotheses of `arc_default_penalty_exact`: consistent graph, a feasible binary vector, a binary `x` -/
+theorem nv_arc_hex : ∃ y, IsBin C03.nv_I.data.n y ∧ C03.nv_I.data.feasibleB y = true :=
+  ⟨C03.nv_x, C03.nv_x_bin, by decide +kernel⟩
+
+/-- hypotheses of `default_penalty_exact` proper on the same data, checked directly -/
+example : Integral C03.nv_I.data ∧ absSum C03.nv_I.data ≤ C03.nv_I.suffPenalty ∧
+    absSum C03.nv_I.data = 16 ∧ C03.nv_I.suffPenalty = 128 :=
+  ⟨arc_integral _, arc_suff_ge_coeffs _ C15.nv_inv, by decide +kernel, by decide +kernel⟩
+
+/-- a concrete conclusion: the infeasible all-zero vector is not a minimiser of the default-penalty QUBO, and the
+    feasible `C03.nv_x` has QUBO value equal to its cost 4 -/
+example : ¬ ∀ z, IsBin C03.nv_I.data.n z →
+    optValue C03.nv_I.data C03.nv_I.suffPenalty C03.nv_z ≤ optValue C03.nv_I.data C03.nv_I.suffPenalty z := fun h =>
+  absurd ((arc_default_penalty_exact C03.nv_I C15.nv_inv nv_arc_hex C03.nv_z C03.nv_z_bin).1 h).1 (by decide +kernel)
+
+example : optValue C03.nv_I.data C03.nv_I.suffPenalty C03.nv_x = 4 := by
+  rw [optValue_eq _ _ _ C03.nv_x_bin]; decide +kernel
+
+/-! path-based: pool obtained through `add_route` on the same graph with capacity 3 -/
+def nv_P : PathInst :=
+  ((((({ g := { C15.nv_g with cap := some 3, init := some 3 } } : PathInst).addRoute
+    [.name "d", .name "a", .name "b", .name "d"]).1.addRoute [.idx 0, .idx 1, .idx 0]).1.addRoute
+    [.idx 0, .idx 2, .idx 1, .idx 0]).1.addRoute [.idx 0, .idx 2, .idx 0]).1
+
+/-- three routes accepted (`d-b-a-d` refused), two rows -/
+example : nv_P.routes = [[0, 1, 2, 0], [0, 1, 0], [0, 2, 0]] ∧ nv_P.costs = [4, 2, 5] ∧ nv_P.data.m = 2 := by
+  decide +kernel
+
+theorem nv_path_bin : IsBin nv_P.data.n (vecOf [0, 1, 1]) := by unfold IsBin; decide +kernel
+
+/-- hypotheses of `path_default_penalty_exact`; conclusion: selecting all three routes is not a QUBO minimiser -/
+theorem nv_path_hex : ∃ y, IsBin nv_P.data.n y ∧ nv_P.data.feasibleB y = true :=
+  ⟨vecOf [0, 1, 1], nv_path_bin, by decide +kernel⟩
+
+example : ¬ ∀ z, IsBin nv_P.data.n z →
+    optValue nv_P.data nv_P.suffPenalty (vecOf [1, 1, 1]) ≤ optValue nv_P.data nv_P.suffPenalty z := fun h =>
+  absurd ((path_default_penalty_exact nv_P nv_path_hex (vecOf [1, 1, 1]) (by unfold IsBin; decide +kernel)).1 h).1
+    (by decide +kernel)
+
+/-! sequence-based: constructor on the same graph, one vehicle, four positions (6 free variables) -/
+def nv_S : SeqInst := ((SeqInst.new C15.nv_g false).setMaxVehicles 1).setMaxSeqLen 4
+
+/-- `I.data = some d` by evaluation -/
+def nv_Sd : MPData := nv_S.data.get (by decide +kernel)
+theorem nv_S_data : nv_S.data = some nv_Sd := (Option.some_get _).symm
+
+theorem nv_S_inv : C15.Inv nv_S.g := C15.nv_inv_of_invB _ (by decide +kernel)
+
+/-- walk `d, a, b, d` -/
+def nv_Sx : Vec := vecOf [0, 1, 0, 0, 0, 1]
+
+example : nv_Sd.n = 6 ∧ nv_Sd.m = 4 ∧ nv_Sd.R.length = 5 ∧ nv_Sd.objective nv_Sx = 4 := by decide +kernel
+
+theorem nv_Sx_bin : IsBin nv_Sd.n nv_Sx := by unfold IsBin; decide +kernel
+
+/-- hypotheses of `seq_default_penalty_exact`; conclusion: the walk `d, b, a, d` (forbidden pair `b → a`) is not a
+    QUBO minimiser -/
+theorem nv_seq_hex : ∃ y, IsBin nv_Sd.n y ∧ nv_Sd.feasibleB y = true := ⟨nv_Sx, nv_Sx_bin, by decide +kernel⟩
+
+example : ¬ ∀ z, IsBin nv_Sd.n z →
+    optValue nv_Sd nv_S.suffPenalty (vecOf [0, 0, 1, 0, 1, 0]) ≤ optValue nv_Sd nv_S.suffPenalty z := fun h =>
+  absurd ((seq_default_penalty_exact nv_S nv_Sd nv_S_data nv_S_inv nv_seq_hex (vecOf [0, 0, 1, 0, 1, 0])
+    (by unfold IsBin; decide +kernel)).1 h).1 (by decide +kernel)
+
 end Vrp.C04
